@@ -516,6 +516,10 @@ func runC01(c *Check, w *World) {
 	ef := NewEffects(tb)
 	iv := newIVWithTables(w, tb, ef)
 	sent := sentinelErrors(w, tb, ef)
+	if w.Cfg.Name == CfgWasm.Name && w.SPkgs[WasmPath] != nil {
+		// the derivation behind the JavaScript generateHOTP/generateTOTP: the same composition rules
+		ruleWasmDerivation(c, w, tb, iv, ef, sent, "R01.W")
+	}
 	gen := w.Func(OtpPath, "GenerateHOTP")
 	if gen == nil {
 		c.Fatal("anchor not found: GenerateHOTP")
@@ -590,7 +594,7 @@ func init() {
 			"R01.6 the key is DecodeSecret(secret) unchanged; R01.7 byte-lane analysis: value = sum[o..o+3] big-endian with bit 31 cleared, o = sum[len-1]&0x0f; R01.8 each renderer returns exactly `digits` bytes written as a complete descending decimal sweep ('0'+(n/10^k)%10, or '0'); R01.9 nil parameters mean the default's fields, defaults are 6/SHA-1. " +
 			"Not decided: correctness of crypto/hmac and the hashes, and anything about a pipeline written in idioms outside those listed (reported undecided).",
 		trusted:  []string{"crypto/hmac, crypto/sha1|sha256|sha512, encoding/binary.BigEndian.PutUint64"},
-		quick:    []Config{CfgNative},
+		quick:    []Config{CfgNative, CfgWasm},
 		thorough: []Config{CfgNative, Cfg386, CfgWasm},
 		run:      runC01,
 	})
